@@ -4,6 +4,8 @@
    code_ok t code (two's-complement range of bits - sign magnitude bits). *)
 From Coq Require Import ZArith List Bool.
 From QV Require Import Base.ZQ Base.FL QTools.Types QTools.Ops QTools.MulThm.
+From QVGen Require Import QToolsOps.
+From QV Require Import Link.QToolsLink.
 Open Scope Z_scope.
 Import ListNotations.
 
@@ -97,3 +99,20 @@ Example C16_nonvacuous :
   let o := snd (make_multiplier w x) in
   render o = [0; 10; 2; 1; 0; 0; -1; 1; 0] /\ mul_bad_pairs w x = [] /\ length (enum_type w) = 16%nat.
 Proof. vm_compute. repeat split. Qed.
+
+(* ---- tie to the source (T): the multiplier rules regenerated from multiplier_impl.py / multiplier_factory.py on this run
+   are, for all operands, the model the theorems above are about ---- *)
+Theorem C16_source_translated : translation_ok = true.
+Proof. exact link_translation_ok. Qed.
+Print Assumptions C16_source_translated.
+Theorem C16_source_multiplier_table : forall mw mx, 0 <= mw <= 5 -> 0 <= mx <= 5 ->
+  nth (Z.to_nat mx) (nth (Z.to_nat mw) gen_mul_table []) (IFMul, OFloat) = mul_table mw mx.
+Proof. exact link_mul_table. Qed.
+Print Assumptions C16_source_multiplier_table.
+Theorem C16_source_rules_are_the_model : forall w x out,
+  gen_FixedPointMultiplier w x out = fixed_mul w x out /\ gen_Shifter w x out = shifter w x out /\
+  gen_Mux w x out = mux w x out /\ gen_AndGate w x out = and_gate w x out /\ gen_XorGate w x out = xor_gate w x out /\
+  gen_Adder w x out = adder_mul w x out /\ gen_FloatingPointMultiplier w x out = float_mul w x out.
+Proof. intros. repeat split; first [apply link_FixedPointMultiplier | apply link_Shifter | apply link_Mux | apply link_AndGate
+                                   | apply link_XorGate | apply link_Adder | apply link_FloatingPointMultiplier]. Qed.
+Print Assumptions C16_source_rules_are_the_model.
